@@ -46,6 +46,10 @@ CHECKS = {
    technique='exhaustive enumeration of statement shapes x witness alphabet x transcripts x contexts per sigma protocol with the complete single-component perturbation set; explicit enumeration of all transcript operation sequences up to depth 3/4 for framing injectivity',
    text='For dlog, com_eq, com_eq_different_groups, com_enc_eq, com_mult, com_lin, com_ineq, aggregate_dlog, vcom_eq, com_eq_sig, ps_sig_known (every known/public/committed pattern of length <=2/3), AndAdapter and ReplicateAdapter: every witness from {random, 0, 1, r-1}, repeated generators, vector sizes 0/1/2/5, under the legacy and the V1 transcript and contexts {"", "a", "ab"}: the proof verifies; it fails under every other context, the other transcript protocol, every single replaced public component (another element, identity, negation, double; vector entries swapped / dropped / appended), another valid instance, every flipped bit of the challenge and of the serialised response. Transcript framing: all sequences of <=3/4 operations over label/message/messages/each/final with label-determined types give pairwise distinct challenges (V1), modulo the API-defined identity final = message.',
    note='EncTrans is covered through C12; DlogEqual and DlogAndAggregateDlogsEqual are private unused modules. vcom_eq and ReplicateAdapter are only exercised on non-empty vectors (their documented precondition; observations O9/O10 in DESIGN.md). Hook H5 (ComLinSecret constructor).'),
+ 'C08': dict(engine='mc-crypto', ref='DESIGN.md §5 C08',
+   technique='exhaustive enumeration of (revokers, threshold, version) configurations x all revoker subsets x counters at the limit boundary x revealed-attribute policies, with the complete single-field perturbation list of request, context and credential and a strided bit-flip neighbourhood of the serialised proofs; oracle = stated accept/reject and equality of the reconstructed identity',
+   text='For every (number of revokers, threshold) configuration with n in 1..3 (thorough 1..5) under v0 and v1 identity objects: the real generate_pio(_v1) request validates, every single-field alteration of the request or its context fails validation; the signed identity object yields credentials for counters 0, 1, max-1, max (accepted by verify_cdi for new and existing accounts) and max+1 (rejected or unproducible), for empty / partial / full revealed policies; every subset of revokers of size >= threshold reconstructs exactly idCredPub (and the PRF key from the request data), every smaller subset does not; every listed single-field perturbation of the credential deployment info (values, commitments, each proof component, threshold, revoker set, provider identity, keys, address binding, global context, provider and revoker keys) and flipped proof bits make verify_cdi fail.',
+   note='Secrets come from a seeded generator (VERIF_SEED). Configurations beyond 5 revokers and attribute lists other than the three fixtures are not covered. Initial-account (verify_initial_cdi) covered for v0 only.'),
  'C11': dict(engine='mc-crypto', ref='DESIGN.md §5 C11',
    technique='exhaustive grid of (bit width, batch size, boundary value, position) x transcripts, all ordered pairs/triples of a boundary alphabet for derived statements, all (set size, element/neighbour) combinations, complete context-perturbation list and single-bit-flip neighbourhood of serialised proofs; oracle = truth of the statement',
    text='Range proofs for n in {1,2,3,4,8,32,64} (thorough: 13 widths incl. non powers of two) x m in {1,2(,3,4)} on values 0, 1, 2^(n-1), 2^n-2, 2^n-1 (must prove and verify) and 2^n, 2^n+1, 2^64-1 (whatever the honest prover outputs must not verify) under the legacy and the V1 transcript; generator vectors one short / one long; a<=b on all ordered pairs and v in [a,b) on all triples of a boundary alphabet; set membership / non-membership for set sizes 1..5 (..16) with every element, both neighbours, below min and above max; every context perturbation (commitments, generators, keys, n, domain, version, transcript protocol) and every single-bit flip of the serialised proof must be rejected.',
@@ -77,7 +81,7 @@ manifest = {
  "engines": [
    {"name": "mc-wasm", "path": "/verif/engines/mc-wasm", "serves_properties": ["C01", "C02", "C09", "C13"],
     "kind_free_text": "bounded exhaustive Wasm program enumeration on the real concordium-wasm engine vs. reference validator/interpreter"},
-   {"name": "mc-crypto", "path": "/verif/engines/mc-crypto", "serves_properties": ["C06", "C07", "C11", "C12", "C19", "C20"],
+   {"name": "mc-crypto", "path": "/verif/engines/mc-crypto", "serves_properties": ["C06", "C07", "C08", "C11", "C12", "C19", "C20"],
     "kind_free_text": "exhaustive configuration / boundary-input / single-component-perturbation enumeration on the real cryptographic code vs. truth predicates"},
    {"name": "mc-state", "path": "/verif/engines/mc-state", "serves_properties": ["C03", "C04", "C15"],
     "kind_free_text": "explicit-state search over operation histories of the real contract-state trie vs. ordered-map model and independent hash"},
